@@ -137,6 +137,7 @@ type Backend struct {
 	// rpc_address of three bytes, 5 system.local answered with zero rows, 6 system.local answered VOID, 7 local partitioner
 	// null, 8 every peers row with a null rpc_address, 9 peers rows with a null data_center, 10 local row repeated twice, 11 system.peers answered VOID
 	SysHostile             int
+	SysDelay               time.Duration            // answers to the system-table queries are written after this delay
 	SlowStartupVersion     byte                     // if non-zero only STARTUPs of this protocol version are slowed down per host
 	StartupDelay           time.Duration            // every STARTUP is answered after this delay (widens the window in which a session is being created)
 	PrepareErr             map[string][]Outcome     // per prepared-id (hex) outcomes of PREPARE attempts
@@ -353,6 +354,19 @@ func (b *Backend) SetStartupDelay(d time.Duration) {
 // Lock / Unlock: for setting several configuration fields at once.
 func (b *Backend) Lock()   { b.mu.Lock() }
 func (b *Backend) Unlock() { b.mu.Unlock() }
+
+// SetSysDelay: answers to system-table queries are written after d from now on.
+func (b *Backend) SetSysDelay(d time.Duration) {
+	b.mu.Lock()
+	b.SysDelay = d
+	b.mu.Unlock()
+}
+
+func (b *Backend) sysDelay() time.Duration {
+	b.mu.Lock()
+	defer b.mu.Unlock()
+	return b.SysDelay
+}
 
 // SetSysHostile sets how system-table rows are malformed from now on (0: not at all).
 func (b *Backend) SetSysHostile(mode int) {
@@ -993,6 +1007,9 @@ func (c *Conn) handle(hdr, body, raw []byte) bool {
 			c.host.mu.Lock()
 			c.sysOK++
 			c.host.mu.Unlock()
+			if d := be.sysDelay(); d > 0 {
+				time.Sleep(d)
+			}
 			c.sendMsg(stream, res)
 			return true
 		}
